@@ -43,7 +43,9 @@ func c14Definition(c *Ctx) {
 			}
 		}
 		// or passed on as an argument to the walking function
-		for _, call := range an.CallsIn(fn, func(_ ssa.CallInstruction, ci an.CalleeInfo) bool { return ci.Static != nil && ci.Static.Pkg != nil && ci.Static.Pkg.Pkg.Path() == pkgComplex }) {
+		for _, call := range an.CallsIn(fn, func(_ ssa.CallInstruction, ci an.CalleeInfo) bool {
+			return ci.Static != nil && ci.Static.Pkg != nil && ci.Static.Pkg.Pkg.Path() == pkgComplex
+		}) {
 			for _, a := range call.Common().Args {
 				if vars != nil && (a == ssa.Value(vars) || an.SameVar(a, vars)) {
 					ok = true
@@ -98,7 +100,9 @@ func c14Definition(c *Ctx) {
 	}
 	// interface-max
 	for _, fn := range c.moduleFuncs(func(p string) bool { return p == pkgComplex }) {
-		if len(an.CallsIn(fn, func(_ ssa.CallInstruction, ci an.CalleeInfo) bool { return strings.HasSuffix(ci.FullName(), "Schema).GetPossibleTypes") })) == 0 {
+		if len(an.CallsIn(fn, func(_ ssa.CallInstruction, ci an.CalleeInfo) bool {
+			return strings.HasSuffix(ci.FullName(), "Schema).GetPossibleTypes")
+		})) == 0 {
 			continue
 		}
 		for _, l := range an.Loops(fn) {
